@@ -377,7 +377,7 @@ def diff_sequence_multilevel(a: "Seq[V]", b: "Seq[V]", path: "path", config: "cf
 
 
 @contract("nbdime.diffing.generic.diff_lists", properties=["C02", "C11", "C01"])
-def diff_lists(a: "Seq[V]", b: "Seq[V]", path: "path", config: "cfg", shallow_diff: "None") -> "Seq[E]":
+def diff_lists(a: "Seq[V]", b: "Seq[V]", path: "path", config: "cfg", shallow_diff: "None" = None) -> "Seq[E]":
     # table contracts (DESIGN 3): every registered differ patches x into y; the single predicate used
     # for alignment is exact on atomic items (this is the clause operator.__eq__ does not satisfy for
     # bool/int/float -- see known_findings.json)
